@@ -6,8 +6,10 @@
 #  3. applies the patch to /repo, runs `./check <Cxx> quick` (and every other claimed check), restores /repo
 # Writes /verif/seeded/<Cxx>/verified.txt
 set -u
+# one run at a time: the script patches /repo while its checks run (do not edit /repo or run checks meanwhile)
+exec 9>/var/tmp/verify_seed.lock; flock 9
 export GOFLAGS=-mod=mod GOPROXY=off GOSUMDB=off GOTOOLCHAIN=local
-P=$1; SRC=${2:-}
+P=$1; SRC=${2:-}; PROP=${P%%-*}
 D=/verif/seeded/$P
 mkdir -p $D
 if [ -n "$SRC" ]; then cp $SRC/patch.diff $SRC/meta.json $D/; cp $SRC/*_test.go $D/ 2>/dev/null; fi
@@ -36,7 +38,7 @@ if [ -n "$(git -C /repo status --porcelain)" ]; then echo "/repo not clean, skip
 git -C /repo apply $D/patch.diff
 for q in $(python3 -c "import json;print(' '.join(c['property_id'] for c in json.load(open('/verif/MANIFEST.json'))['checks']))"); do
   out=$(GOWP_SCRATCH=/var/tmp/seedout.$$ ./check $q quick 2>&1); st=$?
-  if [ $st -ne 0 ]; then echo "$q: exit $st"; echo "$out" | grep -E "^(VIOLATION|KNOWN)" | head -4 | cut -c1-300; elif [ "$q" = "$P" ]; then echo "$q: exit 0 (MISSED)"; fi
+  if [ $st -ne 0 ]; then echo "$q: exit $st"; echo "$out" | grep -E "^(VIOLATION|KNOWN)" | head -4 | cut -c1-300; elif [ "$q" = "$PROP" ]; then echo "$q: exit 0 (MISSED)"; fi
 done
 git -C /repo checkout -- .
 rm -rf /var/tmp/seedout.$$
